@@ -11,6 +11,10 @@ import PyamgV.Proofs.C17Safe2
 import PyamgV.Proofs.C17Safe3
 import PyamgV.Proofs.C17Safe4
 import PyamgV.Proofs.C17Safe5
+import PyamgV.Proofs.ExtC17Safe
+import PyamgV.Proofs.ExtC17SafeBlock
+import PyamgV.Proofs.ExtC17SafeInterp
+import PyamgV.Proofs.ExtC17SafeTrunc
 import PyamgV.Proofs.Bfs
 import PyamgV.Proofs.CC
 import PyamgV.Proofs.ColoringLoop
@@ -127,6 +131,46 @@ restate mis_parallel_total := PyamgV.misParallel_total
 /-- … Bellman–Ford within `n` passes (non-negative weights) -/
 restate bellman_ford_total := PyamgV.BF.bellmanFord_total
 
+/-! ### extension E7: eleven more kernels (models in `Model/ExtC17Ck*.lean`, driver ops `ext_c17_*`)
+
+BSR matrices: `WFb G bs` = structurally valid block pattern with `G.n` block rows/columns and `bs²` values
+per stored block; nested loops that could fail to terminate (`k != step_end` point sweeps, the merge
+`while`, the quicksort recursion) run on fuel and clear the flag when it runs out, so `ok = true`
+includes their termination. -/
+/-- the dense helper `gemm` in the mode the relaxation kernels use (`'F','F','F'`, overwrite), any six dimensions with
+`Brows ≤ Acols`, `Arows·Bcols ≤ Srows·Scols`, operands at arbitrary offsets inside their arrays -/
+restate gemm_safe := PyamgV.C17.gemmFF_safe
+/-- `bsr_gauss_seidel`: any block size, every admissible block-row range, forward and backward point sweeps in the
+diagonal blocks; `x`, `b` of length `n·blocksize` -/
+restate bsr_gauss_seidel_safe := PyamgV.C17.bsrGaussSeidel_safe
+/-- `bsr_jacobi`: additionally the copy loop `temp[0..x_size) = x` and `omega[0]` -/
+restate bsr_jacobi_safe := PyamgV.C17.bsrJacobi_safe
+/-- `block_jacobi`: `Tx` holds `n·blocksize²` values; strided copy loop + strided sweep -/
+restate block_jacobi_safe := PyamgV.C17.blockJacobi_safe
+/-- `block_gauss_seidel`: the last `gemm` of a block row writes into `x` at offset `i·blocksize` -/
+restate block_gauss_seidel_safe := PyamgV.C17.blockGaussSeidel_safe
+/-- `rs_direct_interpolation_pass2`: with `Pp` as the first pass computes it (`PpOK`) and `Pj`, `Px` of at least `Pp[n]`
+entries, the cursor stays below `Pp[i+1]` (counting invariant) and the renumbering `Pj[k] = map[Pj[k]]` only meets node
+numbers (every slot below `Pp[n]` has been written) -/
+restate rs_direct_interpolation_pass2_safe := PyamgV.C17.directPass2_safe
+/-- `rs_classical_interpolation_pass2`, `modified` or not -/
+restate rs_classical_interpolation_pass2_safe := PyamgV.C17.classicalPass2_safe
+/-- the hypothesis `PpOK` of the two theorems above is what the first-pass model (`interpolation_pass1_safe`) returns -/
+restate interpolation_pass1_establishes_PpOK := PyamgV.C17.interpPass1_spec
+/-- `remove_strong_FF_connections` (four nested loops, `break` on `dependence`) -/
+restate remove_strong_FF_connections_safe := PyamgV.C17.removeFF_safe
+/-- `filter_matrix_rows`, `lump` or not; rows without a diagonal never reach `Ax[diag_ind]` with `diag_ind = -1`
+because nothing is below the threshold `theta·0` -/
+restate filter_matrix_rows_safe := PyamgV.C17.filterRows_safe
+/-- `qsort_twoarrays`: the recursion terminates within fuel `right - left`, all swaps inside `[left, right]` -/
+restate qsort_twoarrays_safe := PyamgV.C17.qsortTwo_safe
+/-- `truncate_rows_csr` (`k ≥ 0`), sort + zeroing of the `rowlen - k` smallest entries of every long row -/
+restate truncate_rows_csr_safe := PyamgV.C17.truncateRows_safe
+/-- the merge loop of `my_inner` terminates within `(A_end - A_pos) + (B_end - B_pos)` iterations, in range -/
+restate my_inner_while_safe := PyamgV.C17.imWhile_safe
+/-- `incomplete_mat_mult_csr`: `A` CSR, `B` CSC (sorted or not), `S` any valid pattern with `≤ A.n` rows and columns `< B.n` -/
+restate incomplete_mat_mult_csr_safe := PyamgV.C17.incompleteMatMult_safe
+
 /-! ### non-vacuity: the flag is true on a well-formed input and false on a malformed one -/
 /-- path 0–1–2: `naive_aggregation` model, two aggregates, no fault -/
 example : (C17.naiveAgg 3 #[0,1,3,4] #[1,0,2,1] #[7,7,7] #[9,9,9]).ok = true := by decide
@@ -136,6 +180,24 @@ example : (C17.naiveAgg 2 #[0,1,2] #[5,0] #[0,0] #[0,0]).ok = false := by decide
 the arrays / out of fuel instead of terminating cleanly -/
 example : (C17.gsIndexed (α := Int) ⟨(· * ·), (· + ·), (· - ·), (· / ·), 0, 1, (· == 0), id, max, 0, id⟩
     ⟨2, #[0,1,2], #[0,1], #[1,1]⟩ #[0,0] #[0,1] 0 3 2 3 #[0,0]).isNone = true := by decide
+
+/-- integer scalars for the examples below -/
+def exOps : C17.KOps Int := ⟨(· * ·), (· + ·), (· - ·), (· / ·), 0, 1, (· == 0), fun a => (a.natAbs : Int), max, 0, id⟩
+def exIOps : C17.IOps Int := ⟨fun a => -a, fun a => decide (a < 0), fun a b => decide (0 < a.natAbs ∧ 0 ≤ b.natAbs)⟩
+/-- one 2×2 diagonal block, backward sweep: `bsr_gauss_seidel` model terminates with the flag set -/
+example : ((C17.bsrGaussSeidel exOps ⟨1, #[0,1], #[0], #[2,1,1,2]⟩ #[4,4] 2 0 (-1) (-1) 1 #[0,0]).map (·.ok)) = some true := by decide
+/-- the same call with `x` one entry short faults -/
+example : ((C17.bsrGaussSeidel exOps ⟨1, #[0,1], #[0], #[2,1,1,2]⟩ #[4,4] 2 0 (-1) (-1) 1 #[0]).map (·.ok)) = some false := by decide
+/-- `PpOK` is satisfiable: F row 0 with strong C neighbours 1 and 2, `Pp = [0,2,3,4]`; the direct pass-2 model runs clean … -/
+example : (C17.directPass2 exOps exIOps ⟨3, #[0,3,4,5], #[0,1,2,1,2], #[4,-1,-1,1,1]⟩ ⟨3, #[0,2,2,2], #[1,2], #[-1,-1]⟩
+    #[0,1,1] #[0,2,3,4] #[-7,-7,-7,-7] #[0,0,0,0]).ok = true := by decide
+/-- … and faults when `Pj` is one entry shorter than `Pp[n]` -/
+example : (C17.directPass2 exOps exIOps ⟨3, #[0,3,4,5], #[0,1,2,1,2], #[4,-1,-1,1,1]⟩ ⟨3, #[0,2,2,2], #[1,2], #[-1,-1]⟩
+    #[0,1,1] #[0,2,3,4] #[-7,-7,-7] #[0,0,0,0]).ok = false := by decide
+/-- the first-pass model returns exactly that `Pp` -/
+example : (C17.interpPass1 3 #[0,2,2,2] #[1,2] #[0,1,1] #[-7,-7,-7,-7]).val = #[0,2,3,4] := by decide
+/-- quicksort on a reversed row of four entries terminates within its fuel -/
+example : (C17.truncateRows exOps (fun a b => decide (a < b)) 2 ⟨1, #[0,4], #[0,1,2,3], #[4,3,2,1]⟩).ok = true := by decide
 
 /-! ### interface facts regenerated from the working tree on every run (translator tie):
 signatures and const-ness of every native kernel (which arrays a kernel may write) -/
